@@ -257,3 +257,41 @@ def twin_autograd(scn: dict, run: BackwardRun) -> list[str]:
         if a != b:
             out.append(f"leaf {l}: torchjd {a} vs torch.autograd {b}")
     return out
+
+
+def precision_run_backward(scn: dict, rng: random.Random) -> list[str]:
+    """float64 precision: the same program with leaf values and weights that are NOT representable in
+    float32 (v + k 2^-29), torchjd vs torch.autograd on a twin graph at 1e-12 relative.  Integer programs
+    cannot see a round trip through float32 (every integer below 2^24 survives it); this can."""
+    from torchjd import backward
+    from torchjd.aggregation import Constant
+    eps = 2.0 ** -29
+    B = Built(scn["prog"], dtype=torch.float64, rng=rng, perturb=eps)
+    T = Built(scn["prog"], dtype=torch.float64, shapes=B.shapes, real=B.real, perturb=eps)
+    tensors = [int(t) for t in scn["tensors"]]
+    inputs = [int(l) for l in scn["inputs"]]
+    w = torch.tensor([float(v) + 2.0 ** -28 * (1 + i % 2) for i, v in enumerate(scn["w"])], dtype=torch.float64)
+    k = scn["k"]
+    try:
+        backward([B.node(t) for t in tensors], Constant(w), inputs=[B.node(l) for l in inputs],
+                 parallel_chunk_size=None if k == 0 else k)
+    except Exception as e:                                  # noqa: BLE001
+        return [f"raised {type(e).__name__}: {str(e)[:120]}"]
+    gts, off = [], 0
+    for t in tensors:
+        n = T.node(t).numel()
+        gts.append(w[off:off + n].reshape(T.node(t).shape))
+        off += n
+    torch.autograd.backward([T.node(t) for t in tensors], grad_tensors=gts, inputs=[T.node(l) for l in inputs])
+    out = []
+    for l in inputs:
+        a, b = B.node(l).grad, T.node(l).grad
+        b = torch.zeros_like(T.node(l)) if b is None else b
+        if a is None or a.dtype != torch.float64:
+            out.append(f"leaf {l}: .grad {None if a is None else a.dtype}")
+            continue
+        scale = max(1.0, float(b.abs().max()))
+        err = float((a - b).abs().max())
+        if err > 1e-12 * scale:
+            out.append(f"leaf {l}: differs from torch.autograd by {err:.3e} (float64, scale {scale:.3g})")
+    return out
